@@ -15,6 +15,24 @@ use crate::driver::{Outcome, Prop, SchedSpec, Stats, Tier as DTier, Violation, W
 use crate::rng::Rng;
 use crate::sim::{self, What};
 
+static BLOCKS_ARMED: std::sync::atomic::AtomicBool = std::sync::atomic::AtomicBool::new(false);
+
+/// The liveness oracle for returned zones is armed once per process, if the
+/// handle layout assumption holds.
+pub fn blocks_armed() -> bool {
+    BLOCKS_ARMED.load(std::sync::atomic::Ordering::Relaxed)
+}
+
+fn arm_blocks() {
+    static ONCE: std::sync::Once = std::sync::Once::new();
+    ONCE.call_once(|| {
+        crate::alloc::enable();
+        if exec::zone_block_self_check() {
+            BLOCKS_ARMED.store(true, std::sync::atomic::Ordering::Relaxed);
+        }
+    });
+}
+
 pub struct C19 {
     /// `Some(true)`: only fault-free cases; `Some(false)`: only cases with
     /// mutators; `None`: the generator's own mix.
@@ -319,6 +337,7 @@ impl Prop for C19 {
         stats: Option<&mut Stats>,
         want_trace: bool,
     ) -> Outcome {
+        arm_blocks();
         let root = ctx.dir.join("r");
         let c = case.clone();
         // The bundled back-end's cache is one process-global static: runs
@@ -349,6 +368,7 @@ impl Prop for C19 {
             )
         });
         let mut harness_error = out.escaped_panic.map(|m| format!("panic escaped the execution: {m}"));
+        let mut stats_blocks = 0u64;
         let Some(run) = run else {
             return Outcome {
                 fingerprint: 0,
@@ -367,6 +387,46 @@ impl Prop for C19 {
         }
         let mut violations = vec![];
         let mut ostats = oracle::OracleStats::default();
+        // Memory: every zone a lookup returned is still held by the harness,
+        // so the block its handle points into must still be allocated (and
+        // must have been when the lookup returned). Checked *before* the
+        // oracle reads any of those zones.
+        let mut dangling = false;
+        if harness_error.is_none() && run.track_blocks {
+            for o in run.ops.iter() {
+                if let Some((addr, serial)) = o.zone_block {
+                    let now = crate::alloc::live_at(addr).map(|l| l.1);
+                    if serial == 0 || now != Some(serial) {
+                        dangling = true;
+                        violations.push(Violation {
+                            clause: "dangling_zone".into(),
+                            detail: format!(
+                                "op {} (thread {}): the zone returned by {:?} points into memory that {} although the caller still holds the handle",
+                                o.id,
+                                o.thread,
+                                o.kind,
+                                if serial == 0 { "was not allocated when the lookup returned" } else { "has been freed since" },
+                            ),
+                        });
+                        break;
+                    }
+                }
+            }
+            stats_blocks = run.ops.iter().filter(|o| o.zone_block.is_some()).count() as u64;
+        }
+        if dangling {
+            // Do not touch (or drop) the dangling handles.
+            let out_choices = out.choices;
+            std::mem::forget(run);
+            return Outcome {
+                fingerprint: fp,
+                nontrivial: true,
+                violations,
+                harness_error: None,
+                choices: out_choices,
+                trace: Value::Null,
+            };
+        }
         if harness_error.is_none() {
             let mut o = oracle::Oracle::new(&run, &events, &io_fired);
             // Testing aid (never set by the registered commands): ignore
@@ -392,6 +452,7 @@ impl Prop for C19 {
             stats.sim_ns += clock as u128;
             stats.add("clock.simulated_seconds_in_steps_up_to_1h", sim::with_rt(|rt| rt.clock_small_ns) / 1_000_000_000);
             self.collect_stats(stats, &run, &events, &ostats);
+            stats.add("oracle.returned_zones_checked_live", stats_blocks);
             stats.add("fault.io_error.sites_asked", io_asked);
             for f in io_fired.iter() {
                 stats.add("fault.io_error.injected", 1);
@@ -403,11 +464,39 @@ impl Prop for C19 {
         }
         let (landed, overlap) = classify(&run);
         let fingerprint = result_fingerprint(&run, fp);
-        let trace = if want_trace || !violations.is_empty() {
+        // Leak: once the harness drops every returned zone (the databases
+        // are gone already), the blocks must be freed. The bundled back-end
+        // keeps its handles in a process-global cache and is exempt.
+        let blocks: Vec<(u32, usize, u64)> = if run.track_blocks
+            && violations.is_empty()
+            && harness_error.is_none()
+            && case.backend != Backend::Bundled
+        {
+            run.ops
+                .iter()
+                .filter_map(|o| o.zone_block.map(|b| (o.id, b.0, b.1)))
+                .collect()
+        } else {
+            vec![]
+        };
+        let trace_pre = if want_trace || !violations.is_empty() {
             build_trace(&run, &events, &io_fired)
         } else {
             Value::Null
         };
+        drop(run);
+        for (id, addr, serial) in blocks {
+            if crate::alloc::live_at(addr).map(|l| l.1) == Some(serial) {
+                violations.push(Violation {
+                    clause: "zone_leak".into(),
+                    detail: format!(
+                        "the zone returned by op {id} is still allocated after the database and every handle to it were dropped"
+                    ),
+                });
+                break;
+            }
+        }
+        let trace = trace_pre;
         Outcome {
             fingerprint,
             nontrivial: landed || overlap,
@@ -425,6 +514,13 @@ impl Prop for C19 {
             None => "mixed",
         };
         vec!["--prop".into(), "c19".into(), "--ff".into(), ff.into()]
+    }
+
+    /// A memory bug in the database's handling of its cached handles can
+    /// take the process down: attribute worker crashes to their run and
+    /// minimise / replay in child processes.
+    fn isolate(&self) -> bool {
+        true
     }
 
     fn size(&self, case: &Case) -> usize {
